@@ -21,6 +21,17 @@ def whole_number(text):
     return sign * value
 
 
+def whole_text(number):
+    """ str(number) for a whole number of any size (Python refuses more than 4300 digits at once) """
+    sign, number = ('-' if number < 0 else ''), abs(number)
+    chunks = []
+    while number >= 10 ** 4000:
+        number, rest = divmod(number, 10 ** 4000)
+        chunks.append('%04000d' % rest)
+    chunks.append(str(number))
+    return sign + ''.join(reversed(chunks))
+
+
 def to_number(number):
     if isinstance(number, number_types):
         return number
